@@ -18,11 +18,14 @@ type c12Gun struct {
 }
 
 type c12World struct {
-	mu       sync.Mutex
-	shots    int
-	ids      []int
-	tokTimes []int64 // time of the i-th startup token
-	calls    int
+	started    bool
+	startClock int64
+	offsets    []int64 // expected offset of the i-th startup token from the profile's start
+	mu         sync.Mutex
+	shots      int
+	ids        []int
+	tokTimes   []int64 // time of the i-th startup token
+	calls      int
 }
 
 func (g *c12Gun) Bind(a core.Aggregator, deps core.GunDeps) error {
@@ -44,9 +47,18 @@ type c12TokSched struct {
 }
 
 func (s *c12TokSched) Next() (time.Time, bool) {
+	if !s.w.started {
+		// the startup profile starts with its first Next (the engine never calls Start on it)
+		s.w.started = true
+		s.w.startClock = vClock()
+	}
 	tx, ok := s.Schedule.Next()
 	if ok {
 		s.w.mu.Lock()
+		i := len(s.w.tokTimes)
+		if i < len(s.w.offsets) {
+			vCheck("I6.token.not.before.its.profile.time", vTimeNs(tx) >= s.w.startClock+s.w.offsets[i])
+		}
 		s.w.tokTimes = append(s.w.tokTimes, vTimeNs(tx))
 		s.w.mu.Unlock()
 	}
@@ -54,8 +66,9 @@ func (s *c12TokSched) Next() (time.Time, bool) {
 }
 
 func c12Scenario(profile int, cut int) {
-	a := vConcretize(vNondetInt("a", 1, 2))
+	a := vConcretize(vNondetInt("a", 0, 2))
 	b := vConcretize(vNondetInt("b", 0, 1))
+	vAssume(a+b >= 1)
 	d := time.Duration(vNondetInt("d", 1_000_000, 5_000_000_000))
 	k := int64(1)
 	w := &c12World{}
@@ -65,10 +78,19 @@ func c12Scenario(profile int, cut int) {
 		startup = schedule.NewOnce(a + b)
 	case 1:
 		startup = schedule.NewComposite(schedule.NewOnce(a), schedule.NewConst(0, d), schedule.NewOnce(b))
+	case 3:
+		startup = schedule.NewComposite(schedule.NewConst(0, d), schedule.NewOnce(a+b))
 	default:
 		startup = schedule.NewInstanceStep(a, a+b, 1, d)
 	}
 	T := int(a + b)
+	for i := 0; i < T; i++ {
+		off := int64(0)
+		if profile == 3 || (profile != 0 && int64(i) >= a) {
+			off = int64(d)
+		}
+		w.offsets = append(w.offsets, off)
+	}
 	items := T * int(k)
 	perInstance := true
 	switch cut {
@@ -91,6 +113,7 @@ func c12Scenario(profile int, cut int) {
 		NewRPSSchedule:  func() (core.Schedule, error) { return schedule.NewOnce(k), nil },
 		StartupSchedule: &c12TokSched{Schedule: startup, w: w}}
 	metrics := hMetrics()
+	aggr.metrics = &metrics
 	waitDone := 0
 	p := newPool(zap.NewNop(), metrics, func() { waitDone++ }, conf)
 	err := p.Run(context.Background())
@@ -117,8 +140,9 @@ func c12Scenario(profile int, cut int) {
 	vReach("end")
 }
 
-func HarnessC12Once()              { c12Scenario(0, 0) }
-func HarnessC12Composite()         { c12Scenario(1, 0) }
-func HarnessC12InstanceStep()      { c12Scenario(2, 0) }
-func HarnessC12CutByAmmo()         { c12Scenario(1, 1) }
+func HarnessC12DelayedStart()       { c12Scenario(3, 0) }
+func HarnessC12Once()               { c12Scenario(0, 0) }
+func HarnessC12Composite()          { c12Scenario(1, 0) }
+func HarnessC12InstanceStep()       { c12Scenario(2, 0) }
+func HarnessC12CutByAmmo()          { c12Scenario(1, 1) }
 func HarnessC12CutBySharedProfile() { c12Scenario(1, 2) }
